@@ -202,6 +202,8 @@ def run(ctx):
         okall = True
         n = 0
         for a in field_accesses(prog, adt, field):
+            if a["func"].derived:
+                continue  # derive(Clone) copies the field of a value that already satisfies the invariant
             if a["kind"] == "borrow_mut":
                 okall = False
                 r0.violation("%s.%s mutably borrowed in %s" % (adt.split("::")[-1], field, a["func"].path), "declared range cannot be maintained", loc(a["sp"]))
@@ -260,6 +262,7 @@ def run(ctx):
                 continue
             allsites.append(s)
     seen_keys = {}
+    func_used = {}
     for s in allsites:
         dbg = any(e in ("debug_assert", "debug_assert_eq", "debug_assert_ne") for e in s.expn)
         rule = r1d if dbg else r1
@@ -282,6 +285,13 @@ def run(ctx):
             rule.ok(key, detail, s.loc, how="AUTO")
             continue
         ent = T.lookup(T.SITES, base, n)
+        if ent is None and s.func.path in T.FUNCS:
+            fe = T.FUNCS[s.func.path]
+            kk = (s.func.path, s.kind)
+            used = func_used.get(kk, 0)
+            if used < fe["budget"].get(s.kind, 0):
+                func_used[kk] = used + 1
+                ent = fe
         if ent is not None:
             problems = check_requires(ctx, prog, ent.get("requires", []))
             used_table.add(ent["_key"])
@@ -295,7 +305,7 @@ def run(ctx):
         rule.violation(key, "%s site not discharged: %s" % (s.kind, detail), s.loc)
     ctx.extra["site_counts"] = counts
     r1.floor(280, "panic-capable sites in the analysed set (cross-checked against the opt-in clippy restriction lints)")
-    for k in sorted(set(e["_key"] for e in T.SITES_LIST) - used_table):
+    for k in sorted((set(e["_key"] for e in T.SITES_LIST) | set(e["_key"] for e in T.FUNCS.values())) - used_table):
         r1.note("unused table entry", "no open site matches table key %s any more (code changed or now discharged automatically)" % k, "sa/tables/c04_table.py")
 
     # ---- R2 termination ------------------------------------------------------------------------
@@ -306,7 +316,7 @@ def run(ctx):
     # ---- R3 allocations --------------------------------------------------------------------------
     r3 = ctx.rule("C04.R3", "allocations whose size derives from packet / FDT data are dominated by a comparison of that size with a "
                             "constant or a configured limit", "DOM+E4")
-    alloc_rx = re.compile(r"(alloc::vec::from_elem|Vec<.*>::with_capacity|Vec::with_capacity|Vec::resize|Vec::resize_with|VecDeque::resize_with|VecDeque::with_capacity|"
+    alloc_rx = re.compile(r"((alloc|std)::vec::from_elem|Vec<.*>::with_capacity|Vec::with_capacity|Vec::resize|Vec::resize_with|VecDeque::resize_with|VecDeque::with_capacity|"
                           r"Vec::reserve|RingBuffer::new|String::with_capacity)$")
     nall = 0
     for p in sorted(reach):
@@ -444,5 +454,36 @@ def _check_one(ctx, prog, rq):
         for s in ss:
             if not any(re.search(rx_, show_fact(fact)) for fact in fl.facts_at(s.bb)):
                 return "call %s in %s not dominated by /%s/" % (model.short_callee(s.term.callee_path()), fp.split("::")[-1], rx_)
+        return None
+    if kind == "no_err_return":
+        _, fp = rq
+        f = prog.funcs.get(fp)
+        if f is None:
+            return "function %s not found" % fp
+        errs = ret_assign_blocks(f.body, lambda e: is_variant(e, "Err")) + \
+            ret_assign_blocks(f.body, lambda e: e[0] == "call" and e[1].endswith("from_residual"))
+        return None if not errs else "%s can return Err" % fp.split("::")[-1]
+    if kind == "fields_written_only_in":
+        _, adt, fields, allowed = rq
+        for fld in fields:
+            for a in field_accesses(prog, adt, fld):
+                if a["kind"] in ("assign", "assign_sub", "borrow_mut", "construct") and not a["func"].derived:
+                    if not any(re.search(al, a["func"].root().path) for al in allowed):
+                        return "%s.%s written in %s" % (adt.split("::")[-1], fld, a["func"].root().path)
+        return None
+    if kind == "guard_call_before":
+        # ("guard_call_before", function, callee regex): a call matching the regex, followed by `?`, dominates every allocation in the function
+        _, fp, crx = rq
+        f = prog.funcs.get(fp)
+        if f is None:
+            return "function %s not found" % fp
+        ss = call_sites(f, lambda pth, c: re.search(crx, pth) is not None)
+        if not ss:
+            return "no call matching /%s/ in %s" % (crx, fp.split("::")[-1])
+        fl = Flow(f.body)
+        allocs = call_sites(f, lambda pth, c: re.search(r"vec::from_elem$|with_capacity$", pth) is not None)
+        for a in allocs:
+            if not all(fl.dominates(s_.bb, a.bb) for s_ in ss):
+                return "allocation not dominated by the validating call"
         return None
     return "unknown requires kind %s" % kind
